@@ -118,6 +118,8 @@ fn build(c: &ImportCase) -> Layout {
                 uses_nonglob = true;
                 main.push_str(&format!("use {} as {p}\n", FILES[fi]));
                 prefixes.push((p.clone(), fi));
+                // the alias is itself a declaration in main's namespace: it clashes with any other visible `p`
+                visible.entry(p.clone()).or_default().insert(format!("alias-of-{}", short(FILES[fi])));
                 vec![]
             }
         };
@@ -138,9 +140,10 @@ fn build(c: &ImportCase) -> Layout {
         }
     }
     // a local value binding shadows an imported / own function of the same name
-    let shadow = c.local_shadow.map(|i| POOL[i as usize % POOL.len()].to_string());
+    // (a local value binding named like a namespace alias is not generated: nothing documents that case)
+    let shadow = c.local_shadow.map(|i| POOL[i as usize % POOL.len()].to_string()).filter(|s| !prefixes.iter().any(|(p, _)| p == s));
     for (n, places) in &visible {
-        if places.len() == 1 && Some(n) != shadow.as_ref() {
+        if places.len() == 1 && Some(n) != shadow.as_ref() && !places.iter().next().unwrap().starts_with("alias-of-") {
             main.push_str(&format!("println({n}())\n"));
             expected_out.push_str(&format!("{}.{}\n", places.iter().next().unwrap(), if n.starts_with("only_") { "only" } else { n }));
         }
@@ -153,7 +156,7 @@ fn build(c: &ImportCase) -> Layout {
     let mut hidden = vec![];
     for fi in 0..nfiles {
         for n in decl_names(c.decls[fi]) {
-            if !visible.contains_key(n) && Some(n.to_string()) != shadow && !hidden.contains(&n.to_string()) {
+            if !visible.contains_key(n) && Some(n.to_string()) != shadow && !hidden.contains(&n.to_string()) && !prefixes.iter().any(|(p, _)| p == n) {
                 hidden.push(n.to_string());
             }
         }
@@ -178,14 +181,14 @@ impl Prop for Imports {
         "imports"
     }
     fn rule(&self) -> &'static str {
-        "one case = 1..4 library files (two in sub-directories) declaring subsets of a 6-name pool (every function returns the tag 'file.name'), a main file with one `use` per chosen library in one of the forms glob / single / list / except / except-list / as-prefix, own declarations, an optional local binding shadowing a function name, an optional transitive import inside a library, and optionally one reference to a hidden name; the model computes the effective namespace: a name with two visible declarations => a clash diagnostic; a hidden name used unqualified => an unresolved-identifier diagnostic whose range is that name; otherwise every visible name and every prefix-qualified name prints the tag of the declaration the model resolves; non-trivial = >= 2 files and >= 1 non-glob import form; distinct by case"
+        "one case = 1..4 library files (two in sub-directories) declaring subsets of a 6-name pool (every function returns the tag 'file.name'), a main file with one `use` per chosen library in one of the forms glob / single / list / except / except-list / as-prefix (the prefix sometimes equal to a pool name, so that the alias itself can clash), own declarations, an optional local binding shadowing a function name, an optional transitive import inside a library, and optionally one reference to a hidden name; the model computes the effective namespace: a name with two visible declarations => a clash diagnostic; a hidden name used unqualified => an unresolved-identifier diagnostic whose range is that name; otherwise every visible name and every prefix-qualified name prints the tag of the declaration the model resolves; non-trivial = >= 2 files and >= 1 non-glob import form; distinct by case"
     }
     fn n_cases(&self, tier: Tier) -> u32 {
         tier.pick(2500, 40000)
     }
     fn strategy(&self, _tier: Tier, _f: &Findings) -> BoxedStrategy<Self::Case> {
         let idxs = || proptest::collection::vec(0u8..7, 1..4);
-        let form = prop_oneof![3 => Just(UseForm::Glob), 3 => idxs().prop_map(UseForm::Only), 3 => idxs().prop_map(UseForm::Except), 2 => "p[a-c]".prop_map(UseForm::As)];
+        let form = prop_oneof![3 => Just(UseForm::Glob), 3 => idxs().prop_map(UseForm::Only), 3 => idxs().prop_map(UseForm::Except), 2 => "p[a-c]".prop_map(UseForm::As), 1 => (0usize..POOL.len()).prop_map(|i| UseForm::As(POOL[i].to_string()))];
         (proptest::collection::vec(0u8..64, 1..5), proptest::collection::vec((0u8..4, form), 0..4), prop_oneof![3 => Just(0u8), 1 => 0u8..64], proptest::option::weighted(0.3, 0u8..6), any::<bool>(), proptest::bool::weighted(0.3))
             .prop_map(|(decls, uses, own, local_shadow, transitive, use_hidden)| {
                 // prefixes must be distinct per import
